@@ -28,6 +28,10 @@ meta = {"property": ID, "verified_at": time.strftime('%Y-%m-%dT%H:%M:%SZ', time.
 try:
     for name in ('plain', 'patched'):
         sh('rsync -a /repo/ %s/%s/' % (W, name))
+        if os.environ.get('SEED_BASE'):
+            # a seed written against an earlier commit (later fix commits touched the same lines)
+            sh('git checkout -q --detach %s' % os.environ['SEED_BASE'], cwd='%s/%s' % (W, name))
+            meta['base_commit'] = os.environ['SEED_BASE']
     rc, out = sh('git apply --whitespace=nowarn %s/patch.diff' % src, cwd=W + '/patched')
     meta['patch_applies'] = rc == 0
     if rc != 0:
